@@ -19,7 +19,7 @@ HERE = os.path.dirname(os.path.abspath(__file__))
 PRELUDE = r'''
 verus! {
 global size_of usize == 8;
-use std::collections::HashMap;
+use std::collections::{HashMap, HashSet, BTreeMap, BTreeSet, VecDeque};
 use core::hash::Hash;
 #[derive(Clone, Copy, PartialEq, Eq, Hash, Structural)]
 pub struct ExprId(pub u32);
